@@ -364,9 +364,9 @@ static const seed_t seeds[] = {
 	"1 -1 -10 -20 20 -20 30 -2 -40\n"
 	"1 0.5 0.3 20 0.1\n2 0.6 0.4 30 0.2\n", 0 },
     { "s2p-h", F_TS, "s2p",
-	"# kHz H RI R 75\n1 1 2 3 4 5 6 7 8\n", 0 },
+	"# kHz H RI R 75\n1 1 2 3 4 5 6 7 8\n", SF_L2 },
     { "s2p-defaults", F_TS, "s2p",
-	"#\n1 1 2 3 4 5 6 7 8", 0 },
+	"#\n1 1 2 3 4 5 6 7 8", SF_L2 },
     { "s3p", F_TS, "s3p",
 	"# Hz Z RI R 75\n1 1 2 3 4 5 6\n7 8 9 10 11 12\n13 14 15 16 17 18\n"
 	"2 1 2 3 4 5 6\n7 8 9 10 11 12\n13 14 15 16 17 18\n", 0 },
@@ -374,6 +374,15 @@ static const seed_t seeds[] = {
 	"# kHz Y DB R 50\n"
 	"1 1 2 3 4 5 6 7 8\n 9 10 11 12 13 14 15 16\n"
 	" 17 18 19 20 21 22 23 24\n 25 26 27 28 29 30 31 32\n", 0 },
+    { "s5p", F_TS, "s5p",
+	"# Hz S RI R 50\n"
+	"1 1 2 3 4 5 6 7 8 9 10\n11 12 13 14 15 16 17 18 19 20\n"
+	"21 22 23 24 25 26 27 28 29 30\n31 32 33 34 35 36 37 38 39 40\n"
+	"41 42 43 44 45 46 47 48 49 50\n", 0 },
+    { "s1p-long-token", F_TS, "s1p",
+	"# Hz S RI R 50\n1 0.00000000000000000000000000000000000000000000000"
+	"000000000000000000000000000000000000000000000000000000000000000000"
+	"000000000000000000000000000001 -0.5\n", 0 },
     /* ---- Touchstone 2 ---- */
     { "ts-2port", F_TS, "ts",
 	"[Version] 2.0\n# Hz S RI R 50\n[Number of Ports] 2\n"
@@ -397,6 +406,12 @@ static const seed_t seeds[] = {
 	"[Version] 2.0\n# Hz Y RI\n[Number of Ports] 1\n"
 	"[Number of Frequencies] 1\n[Matrix Format] Upper\n"
 	"[Network Data]\n5 1 2\n[End]\n", SF_L2 },
+    { "ts-ref-before-nfreq", F_TS, "ts",
+	"[Version] 2.0\n# kHz S RI R 50\n[Number of Ports] 1\n"
+	"[Number of Frequencies] 2\n[Reference] 75\n"
+	"[Number of Noise Frequencies] 3\n[Network Data]\n"
+	"5 1 2\n6 3 4\n[Noise Data]\n1 .5 .3 20 .1\n2 .6 .4 30 .2\n"
+	"3 .7 .5 40 .3\n[End]\n", SF_L2 },
     { "ts-v1-hybrid", F_TS, "ts",
 	"[Version] 1.0\n# Hz Z RI R 75\n[Number of Ports] 1\n"
 	"[Number of Frequencies] 1\n[Network Data]\n5 1 2\n", 0 },
@@ -421,7 +436,16 @@ static const seed_t seeds[] = {
 	"#:z0 50 0\n1 2 3\n", SF_L2 },
     { "npd-zin", F_NPD, "npd",
 	"#:ports 2\n#:frequencies 1\n#:parameters SRL,zinri\n"
-	"1 1 2 3 4 5 6 7 8\n", 0 },
+	"1 1 2 3 4 5 6 7 8\n", SF_L2 },
+    { "npd-long-lines", F_NPD, "npd",
+	"#:ports 3\n#:frequencies 1\n#:parameters          Sri\n"
+	"#:z0 50.000000000 0.000000000 50.000000000 0.000000000 "
+	"50.000000000 0.000000000\n"
+	"1.000000000000e+09 0.100000000000 0.200000000000 0.300000000000 "
+	"0.400000000000 0.500000000000 0.600000000000 0.700000000000 "
+	"0.800000000000 0.900000000000 1.000000000000 1.100000000000 "
+	"1.200000000000 1.300000000000 1.400000000000 1.500000000000 "
+	"1.600000000000 1.700000000000 1.800000000000\n", 0 },
     /* ---- vnacal ---- */
     { "vnacal-e12-1x1", F_VNACAL, "vnacal", vc_e12_1x1, 0 },
     { "vnacal-t8-1x1", F_VNACAL, "vnacal", vc_t8_1x1, SF_L2 },
@@ -435,7 +459,7 @@ static const seed_t seeds[] = {
     { "vnacal-e12-2x2", F_VNACAL, "vnacal", vc_e12_2x2, 0 },
     { "vnacal-two", F_VNACAL, "vnacal", vc_two, 0 },
     { "vnacal-legacy2", F_VNACAL, "vnacal", vc_legacy, 0 },
-    { "vnacal-old3", F_VNACAL, "vnacal", vc_old3, 0 },
+    { "vnacal-old3", F_VNACAL, "vnacal", vc_old3, SF_L2 },
     { "vnacal-compat-V2-file", F_VNACAL, "vnacal", vc_checked_in, SF_LIGHT },
     /* ---- YAML property documents ---- */
     { "yaml-map", F_YAML, "yaml",
@@ -515,8 +539,10 @@ static const kw_t *const kw_tables[NFORMATS] = {
 };
 
 /* number replacements */
-static const char *const num_repl[] = { "0", "-1", "1e308", "nan", "1x", "" };
-#define NNUMREPL 6
+static const char *const num_repl[] = {
+    "0", "-1", "1e308", "nan", "1x", "", "9"
+};
+#define NNUMREPL 7
 
 /* YAML structural substitutions for a value (children are dropped) */
 static const char *const ysub[] = {
